@@ -404,6 +404,9 @@ def hitmiss(input, Bc, out=None, output=None):
                 out = out.view(np.uint8)
             else:
                 raise TypeError('mahotas.hitmiss: out must be of same type as input')
+    if np.may_share_memory(input, out):
+        # the kernel reads its input while it writes the output
+        input = input.copy()
     return _morph.hitmiss(input, Bc, out)
 
 
@@ -541,6 +544,9 @@ def majority_filter(img, N=3, out=None, output=None):
     img = np.asanyarray(img, dtype=np.bool_)
     _check_2(img, 'majority_filter')
     output = _get_output(img, out, 'majority_filter', np.bool_, output=output)
+    if np.may_share_memory(img, output):
+        # the kernel reads its input while it writes the output
+        img = img.copy()
     if N <= 1:
         raise ValueError('mahotas.majority_filter: filter size must be positive')
     if not N&1:
@@ -598,6 +604,9 @@ def locmax(f, Bc=None, out=None, output=None):
     '''
     Bc = get_structuring_elem(f, Bc)
     output = _get_output(f, out, 'locmax', np.bool_, output=output)
+    if np.may_share_memory(f, output):
+        # the kernel reads its input while it writes the output
+        f = f.copy()
     Bc = _remove_centre(Bc.copy())
     return _morph.locmin_max(f, Bc, output, False)
 
@@ -631,6 +640,9 @@ def locmin(f, Bc=None, out=None, output=None):
     Bc = get_structuring_elem(f, Bc)
     Bc = _remove_centre(Bc.copy())
     output = _get_output(f, out, 'locmin', np.bool_, output=output)
+    if np.may_share_memory(f, output):
+        # the kernel reads its input while it writes the output
+        f = f.copy()
     return _morph.locmin_max(f, Bc, output, True)
 
 
@@ -663,6 +675,9 @@ def regmin(f, Bc=None, out=None, output=None):
     Bc = get_structuring_elem(f, Bc)
     Bc = _remove_centre(Bc.copy())
     output = _get_output(f, out, 'regmin', np.bool_, output=output)
+    if np.may_share_memory(f, output):
+        # the kernel reads its input while it writes the output
+        f = f.copy()
     return _morph.regmin_max(f, Bc, output, True)
 
 
@@ -708,6 +723,9 @@ def regmax(f, Bc=None, out=None, output=None):
     Bc = get_structuring_elem(f, Bc)
     Bc = _remove_centre(Bc.copy())
     output = _get_output(f, out, 'regmax', np.bool_, output=output)
+    if np.may_share_memory(f, output):
+        # the kernel reads its input while it writes the output
+        f = f.copy()
     return _morph.regmin_max(f, Bc, output, False)
 
 def subm(a, b, out=None):
